@@ -742,6 +742,10 @@ class Interp:
             return v.compiled()
         return v
 
+    def _user_eq(self, o):
+        hit = o.cls.lookup('__eq__') if isinstance(o.cls, ClassInfo) else None
+        return hit[1] if hit is not None and hit[0] == 'method' else None
+
     def less_than(self, a, b):
         """a < b as the program would evaluate it: an analysed class's own __lt__ is interpreted."""
         if isinstance(a, Obj):
@@ -1503,6 +1507,13 @@ class Interp:
                 r = Unknown('in')
             elif isinstance(b, GlobalsProxy):
                 r = self.model.resolve(b.modname, a) is not None
+            elif isinstance(a, Obj) and isinstance(b, (list, tuple, set, frozenset, dict)) and self._user_eq(a) is not None:
+                # membership among instances of an analysed class that defines __eq__: identity or its own equality
+                r = False
+                for x in list(b):
+                    if x is a or (isinstance(x, Obj) and self.truth(self.call_function(self._user_eq(a), [a, x], {}))):
+                        r = True
+                        break
             else:
                 try:
                     r = a in b
